@@ -61,11 +61,18 @@ def cases(draw, depth):
             keys.append(draw(st.sampled_from([ident("nomatch"), ("path", ident("no"), "match"), ident("zz", ("q",))])))
     amap = []
     seen = set()
+    idkeys = [k for k in keys if k[0] == "id"]
     for k in keys:
         if k in seen:
             continue
         seen.add(k)
-        amap.append([to_json(k), to_json(draw(st.sampled_from(TARGETS)))])
+        tgt = draw(st.sampled_from(TARGETS))
+        if idkeys and draw(st.integers(0, 3)) == 0:
+            # a target that mentions another key of the same map (aliases are applied in one pass,
+            # a replaced target is not rewritten again)
+            other = draw(st.sampled_from(idkeys))
+            tgt = other if draw(st.booleans()) else ("call", "tolower", (), (other,))
+        amap.append([to_json(k), to_json(tgt)])
     return {"term": to_json(t), "map": amap}
 
 
